@@ -190,7 +190,7 @@ def body_e2e(e, L, cfg):
 
 def strands_obey(e, L, cfg, rows, window_ok, f=None, c=None, extra_cex=None):
     k = cfg["k"]
-    cfg2 = dict(cfg, graph=rows, max_steps=cfg["L"] + 2)
+    cfg2 = dict(cfg, graph=rows, max_steps=max(cfg["L"], 1) * len(rows) + 1)       # C04's bound: L * |V| steps
     g, bs, start, tab = coding.universe(e, cfg2)
     live = [v for v in range(g.N) if any(x >= 0 for x in rows[v])]
     e.assume(z3.Or([start == v for v in live]))
